@@ -289,9 +289,19 @@ def head_states(chk):
         ("removed-from-index", lambda r: git(r, "rm", "-q", "--cached", "other.txt")),
         ("untracked-only", lambda r: open(os.path.join(r, "stray.txt"), "w").write("s\n")),
     ]
-    for name, mutate in states:
+    # layouts: the project is the repository / a sub-directory of the repository (no .git entry beside cond_config.toml) /
+    # the repository data lives elsewhere and .git is a file (linked worktrees, submodules)
+    variants = [(name, mutate, "top") for name, mutate in states] + [(states[0][0], states[0][1], "nested"), (states[1][0], states[1][1], "nested"),
+                                                                     (states[2][0], states[2][1], "separate-git-dir")]
+    for name, mutate, layout in variants:
         root = implrun.make_project({"COND": 'run_experiment(name="e", run="true")\n', "data.txt": "d\n", "other.txt": "o\n", ".gitignore": "cond-out\n"}, git=True)
-        git(root, "init", "-q", "-b", "main")
+        if layout == "nested":
+            subprocess.run(["git", "init", "-q", "-b", "main"], cwd=os.path.dirname(root), env=env, check=True, capture_output=True)
+        elif layout == "separate-git-dir":
+            git(root, "init", "-q", "-b", "main", "--separate-git-dir", root + "-gitdir")
+        else:
+            git(root, "init", "-q", "-b", "main")
+        name = name if layout == "top" else "%s (%s)" % (name, layout)
         git(root, "add", "-A")
         git(root, "commit", "-q", "-m", "c0")
         mutate(root)
@@ -537,6 +547,9 @@ def run(tier, seed, replay=None):
     slow_consumer(chk)
     task_removes_its_output(chk)
     background_writer(chk, "C06")
+    import c13 as _c13  # pylint: disable=import-outside-toplevel
+
+    _c13.recorded_versions_are_not_explored(chk)    # gc never reaches into a recorded version
     scs = scenarios(tier, chk.rng)
     total_runs = 0
     states_seen = 0
